@@ -44,9 +44,33 @@ class Printer:
         if isinstance(v, Ptr):
             v = load(v)
         if isinstance(v, StrV):
+            if not isinstance(v.s, str) and self.ctx is not None and self.ctx.notes.get('free_strings') and self.model is not None:
+                fs = self.free_string(v.s)
+                if fs is not None:
+                    return fs
             r = v.s if isinstance(v.s, str) else self.ev(v.s)
             return r
         raise ValueError('string %r' % (v,))
+
+    def free_string(self, term):
+        """free string literals: contents are abstract; build `letter * length` with one letter per equality class of the model"""
+        fs = self.ctx.notes['free_strings']
+        ids = [sv.get_id() for sv, _ in fs]
+        if term.get_id() not in ids:
+            return None
+        if not hasattr(self, '_fs_classes'):
+            classes = {}
+            self._fs_classes = {}
+            for sv, nv in fs:
+                val = self.model.eval(sv, model_completion=True).as_string()
+                n = self.model.eval(nv, model_completion=True).as_long()
+                key = (val, n)
+                if key not in classes:
+                    classes[key] = len(classes)
+                self._fs_classes[sv.get_id()] = (classes[key], n)
+        c, n = self._fs_classes[term.get_id()]
+        letter = 'abcdefghijklmnopqrstuvwxyz'[c % 26]
+        return letter * n
 
     def variant_name(self, a):
         d = self.defs[a.ty]
